@@ -188,7 +188,12 @@ func init() {
 			// node syncs with the extreme height 2^64-1 through the public API, then a sync that must still take effect
 			fs3, ev3, inc3 := rtPart(run, "commitsync", 32, 1200, map[string]int{"C12 syncs judged after an extreme-height sync": 12})
 			ev["rt_commitsync"] = ev3
-			return append(append(fs, fs2...), fs3...), ev, append(append(inc, inc2...), inc3...)
+			// extreme view values carried by valid messages, election timeouts up to and including the one of view 2^64-1
+			fs4, ev4, inc4 := farViews("C12", 12)(run)
+			for k, v := range ev4 {
+				ev[k] = v
+			}
+			return append(append(append(fs, fs2...), fs3...), fs4...), ev, append(append(append(inc, inc2...), inc3...), inc4...)
 		}})
 	reg(&sim.SimCheck{Prop: "C13", Workload: "c13", Profile: func(th bool) *sim.Profile {
 		p := advProfile(merge(noBare, map[string]int{"support": 20, "mutate": 15}), 500, 3)(th)
@@ -289,7 +294,11 @@ func init() {
 // farViews runs the far-view script (sim/farviews.go) and reports the violations of one property.
 func farViews(prop string, seedSalt int64) func(run *harness.Run) ([]harness.Finding, map[string]interface{}, []string) {
 	return func(run *harness.Run) ([]harness.Finding, map[string]interface{}, []string) {
-		viol, st, trace, done := sim.ScriptFarViews(run.Seed*104729+seedSalt, run.Pick(160, 4000), 120*time.Second)
+		limit := 120 * time.Second
+		if prop == "C12" {
+			limit = 30 * time.Second
+		}
+		viol, st, trace, done := sim.ScriptFarViews(run.Seed*104729+seedSalt, run.Pick(160, 4000), limit)
 		var fs []harness.Finding
 		for i, v := range sim.FilterViolations(prop, viol) {
 			if i >= 3 {
